@@ -464,7 +464,11 @@ class Rig(object):
                     [N("proto", {}, None, b"\x0a\x02hi")])
             self.send.send(msg)
         elif lkind == "libping":
-            self.layer("iq").sendIq(PingIqProtocolEntity())
+            # exactly what YowPingThread.run does: note the id as an outstanding keep-alive, then send
+            ping = PingIqProtocolEntity()
+            iq = self.layer("iq")
+            iq.waitPong(ping.getId())
+            iq.sendIq(ping)
         else:
             raise ValueError(lkind)
         new = self.bottom.sent[nsent:]
